@@ -235,6 +235,11 @@ func (g *egen) boolean(d int) (*enode, ev) {
 				rt, rv = atom(sp.src), ev{k: 'f', f: sp.v}
 			}
 		}
+		if r.Chance(25) { // Go integers whose difference does not fit an int64: ordered as integers all the same
+			pair := [][2]int{{12, 2}, {2, 12}, {13, 3}, {3, 13}, {12, 13}, {13, 12}, {12, 12}, {13, 0}}[r.Intn(8)]
+			l, lv = atom(intAtoms[pair[0]].src), ev{k: 'i', i: intAtoms[pair[0]].v}
+			rt, rv = atom(intAtoms[pair[1]].src), ev{k: 'i', i: intAtoms[pair[1]].v}
+		}
 		a, b := lv.num(), rv.num()
 		var res bool
 		if lv.k == 'i' && rv.k == 'i' {
